@@ -6,6 +6,7 @@ import (
 	"path/filepath"
 	"sync"
 
+	"github.com/pgavlin/dawn/internal/verifhook"
 	"github.com/pgavlin/dawn/label"
 	"github.com/pgavlin/dawn/util"
 	"go.starlark.net/starlark"
@@ -43,6 +44,13 @@ func (m *module) getLoading() *module {
 func (m *module) setLoading(other *module) {
 	m.m.Lock()
 	m.loading = other
+	if verifhook.Enabled {
+		if other != nil {
+			verifhook.At("edge.set", m.label.String(), other.label.String())
+		} else {
+			verifhook.At("edge.clear", m.label.String())
+		}
+	}
 	m.m.Unlock()
 }
 
@@ -52,6 +60,9 @@ func (m *module) done(data starlark.StringDict, err error) (starlark.StringDict,
 
 	m.m.Lock()
 	m.loaded = true
+	if verifhook.Enabled {
+		verifhook.At("module.done", m.label.String(), err == nil)
+	}
 	m.m.Unlock()
 	m.cond.Broadcast()
 
@@ -67,7 +78,13 @@ func (m *module) wait(waiter *module) (starlark.StringDict, error) {
 		// that does not include the waiter.
 		seen := map[*module]struct{}{}
 		for loading := m.getLoading(); loading != nil; loading = loading.getLoading() {
+			if verifhook.Enabled {
+				verifhook.At("chain.hop", waiter.label.String(), m.label.String(), loading.label.String())
+			}
 			if loading == waiter {
+				if verifhook.Enabled {
+					verifhook.At("chain.cycle", waiter.label.String(), m.label.String())
+				}
 				return nil, fmt.Errorf("cyclic dependency on %v", m.label)
 			}
 			if _, ok := seen[loading]; ok {
@@ -77,11 +94,17 @@ func (m *module) wait(waiter *module) (starlark.StringDict, error) {
 		}
 	}
 
+	if verifhook.Enabled {
+		verifhook.At("module.wait", waiterName(waiter), m.label.String())
+	}
 	m.m.Lock()
 	defer m.m.Unlock()
 
 	for !m.loaded {
 		m.cond.Wait()
+	}
+	if verifhook.Enabled {
+		verifhook.At("module.woken", waiterName(waiter), m.label.String(), m.err == nil)
 	}
 
 	return m.data, m.err
@@ -156,6 +179,9 @@ func (m *module) loadModule(proj *Project, rawLabel string) (starlark.StringDict
 
 // load executes the module's code.
 func (m *module) load(proj *Project) (starlark.StringDict, error) {
+	if verifhook.Enabled {
+		verifhook.At("module.exec", m.label.String())
+	}
 	proj.events.ModuleLoading(m.label)
 
 	t, builtins, err := m.env(proj)
